@@ -19,7 +19,8 @@ TECHNIQUE = "exhaustive (duration x outcome x timeout x caller-cancel time) grid
 RULE = (
     "cases are (function duration d, suspension steps, outcome in {value, exc, base, selfcancel_raise, selfcancel_task, "
     "ignore-first-cancel}, timeout tau, caller cancellation time c or none); the integer grid d in 0..5, tau in 1..5, "
-    "c in {none,0..6} x 6 outcomes is enumerated completely, multi-step durations and dyadic times are generated; "
+    "c in {none,0..6} x 6 outcomes is enumerated completely, multi-step durations, dyadic times and calls starting at "
+    "non-round absolute loop times are generated; "
     "non-trivial = anything but value-before-deadline-without-cancel; distinct = distinct tuple"
 )
 LEVEL_TEXT = (
